@@ -239,6 +239,105 @@ pub fn run_case(case: &Case) -> Result<Observed, String> {
     })
 }
 
+/// C02 on the listener side: a sending link accepted by a `LinkAcceptor` configured with the given supported
+/// receiver-settle-modes, towards a scripted receiver that attaches in mode second, takes one unsettled
+/// delivery and reports `accepted` without settling.  Returns the rcv-settle-mode the listener's attach
+/// confirmed, the settling dispositions (role sender) the peer got back as (first, last, settled), and
+/// what `send` returned.
+pub fn run_settle_second(supported: fe2o3_amqp::acceptor::SupportedReceiverSettleModes) -> Result<(ReceiverSettleMode, Vec<(u32, u32, bool)>, String), String> {
+    let rt = paused_runtime();
+    rt.block_on(async move {
+        let (cio, sio) = tokio::io::duplex(1 << 20);
+        let listener = tokio::spawn(async move {
+            let acc = ConnectionAcceptor::new("listener");
+            let mut conn = acc.accept(sio).await.map_err(|e| format!("accept: {:?}", e))?;
+            let sacc = SessionAcceptor::new();
+            let mut session = sacc.accept(&mut conn).await.map_err(|e| format!("session accept: {:?}", e))?;
+            let lacc = LinkAcceptor::builder().supported_receiver_settle_modes(supported).build();
+            let res = match tokio::time::timeout(Duration::from_secs(5), lacc.accept(&mut session)).await {
+                Ok(Ok(LinkEndpoint::Sender(mut s))) => {
+                    let r = match tokio::time::timeout(Duration::from_secs(5), s.send("m0")).await {
+                        Ok(Ok(o)) => format!("{:?}", o).split('(').next().unwrap_or("").to_string(),
+                        Ok(Err(e)) => format!("err:{:?}", e),
+                        Err(_) => "pending".to_string(),
+                    };
+                    // the link stays up while the peer looks for the settling disposition
+                    tokio::time::sleep(Duration::from_secs(2)).await;
+                    let _ = tokio::time::timeout(Duration::from_millis(500), s.close()).await;
+                    r
+                }
+                Ok(Ok(LinkEndpoint::Receiver(_))) => "accepted a receiver".to_string(),
+                Ok(Err(e)) => format!("link accept: {:?}", e),
+                Err(_) => "link accept timed out".to_string(),
+            };
+            let _ = tokio::time::timeout(Duration::from_millis(500), session.on_end()).await;
+            let _ = tokio::time::timeout(Duration::from_millis(500), conn.close()).await;
+            Ok::<_, String>(res)
+        });
+        let mut peer = Peer::new(cio);
+        peer.recv_timeout = Duration::from_millis(1500);
+        let e = |x: PeerError| format!("{:?}", x);
+        peer.send_header().await.map_err(e)?;
+        let _ = peer.recv_header().await.map_err(e)?;
+        peer.send(0, Performative::Open(PeerOpen::default().to_open()), &[]).await.map_err(e)?;
+        let _ = peer.recv_frame().await.map_err(e)?;
+        peer.send(0, Performative::Begin(Begin { remote_channel: None, next_outgoing_id: 0, incoming_window: 2048, outgoing_window: 2048, handle_max: Handle(u32::MAX), offered_capabilities: None, desired_capabilities: None, properties: None }), &[]).await.map_err(e)?;
+        let their_noi = match peer.recv_frame().await.map_err(e)? {
+            (_, Performative::Begin(b), _) => b.next_outgoing_id,
+            (_, other, _) => return Err(format!("expected begin, got {}", summarize(&other, 0))),
+        };
+        let a = Attach {
+            name: "second0".into(),
+            handle: Handle(0),
+            role: Role::Receiver,
+            snd_settle_mode: SenderSettleMode::Unsettled,
+            rcv_settle_mode: ReceiverSettleMode::Second,
+            source: Some(Box::new(Source::default())),
+            target: Some(Box::new(Target::default().into())),
+            unsettled: None,
+            incomplete_unsettled: false,
+            initial_delivery_count: None,
+            max_message_size: None,
+            offered_capabilities: None,
+            desired_capabilities: None,
+            properties: None,
+        };
+        peer.send(0, Performative::Attach(a), &[]).await.map_err(e)?;
+        let mut confirmed = ReceiverSettleMode::First;
+        let mut echoes = vec![];
+        let mut granted = false;
+        loop {
+            match peer.recv_frame().await {
+                Ok((_, Performative::Attach(at), _)) => {
+                    confirmed = at.rcv_settle_mode.clone();
+                    if !granted {
+                        granted = true;
+                        peer.send(0, Performative::Flow(link_flow(0, their_noi, 0, None, 5)), &[]).await.map_err(e)?;
+                    }
+                }
+                Ok((_, Performative::Transfer(t), _)) => {
+                    if let Some(id) = t.delivery_id {
+                        // mode second: the outcome is reported, the delivery stays unsettled until the sender settles it
+                        let d = Disposition { role: Role::Receiver, first: id, last: None, settled: false, state: Some(DeliveryState::Accepted(Accepted {})), batchable: false };
+                        peer.send(0, Performative::Disposition(d), &[]).await.map_err(e)?;
+                    }
+                }
+                Ok((_, Performative::Disposition(d), _)) => {
+                    if matches!(d.role, Role::Sender) {
+                        echoes.push((d.first, d.last.unwrap_or(d.first), d.settled));
+                    }
+                }
+                Ok((_, Performative::Detach(_), _)) | Ok((_, Performative::End(_), _)) | Ok((_, Performative::Close(_), _)) => break,
+                Ok(_) => {}
+                Err(_) => break,
+            }
+        }
+        drop(peer);
+        let res = tokio::time::timeout(Duration::from_secs(60), listener).await.map_err(|_| "listener did not finish".to_string())?.map_err(|e| format!("{:?}", e))??;
+        Ok((confirmed, echoes, res))
+    })
+}
+
 /// what the latest flow of each step allows in total, given the transfers seen before the step
 fn allowed_after(case: &Case, obs: &Observed) -> Vec<usize> {
     let mut out = vec![];
